@@ -228,6 +228,19 @@ theorem C17_runAccepted_items {cfg : Cfg} (ops : List Op) {s s' : St}
   InAllOpts.runAccepted_some_items ops h
 
 
+/-- the history clause stated on `runHistory`, the function the correspondence runs against the real parser:
+    if every item of the history is a success, the parser reached a state, and what it consumed to get there
+    is valid UTF-8 -/
+theorem C17_history_all_success_consumed_valid {cfg : Cfg} {mode : Mode} {bytes : List UInt8} {faulty : Bool}
+    {ops : List Op}
+    (hall : ∀ it ∈ runHistory cfg ops (initSt mode bytes faulty), InAllOpts.Item.accepted it = true)
+    (hm : mode ≠ .str) (htv : InAll.TV bytes)
+    (hnb : cfg.opts.string = .elisp → InAllOpts.NoNumEsc bytes) :
+    ∃ S', InAllOpts.runAccepted cfg ops (initSt mode bytes faulty) = some S' ∧
+      ∀ w, bytes = w ++ S'.rd.rest → Utf8.valid w = true := by
+  obtain ⟨S', h⟩ := InAllOpts.runAccepted_of_items ops _ hall
+  exact ⟨S', h, fun w hw => InAllOpts.C17_history_consumed_valid h hm htv hnb hw⟩
+
 example : Utf8.valid [0xCE, 0xBB, 40, 120, 41] = true ∧ Utf8.valid [0xCE] = false ∧ Utf8.incomplete [0xCE] = true ∧
     Utf8.valid [0xC0, 0x80] = false ∧ Utf8.valid [0xED, 0xA0, 0x80] = false := by decide
 
